@@ -8,9 +8,25 @@ let state = { s = []; opl = false; prev = "" }
 let f_visible (s : Watcher.wstate) : string =
   match List.sort compare (List.map hx (Watcher.visible s)) with [] -> "{}" | l -> String.concat "," l
 
+(* a namespace as the harness prints it (cfgTok of one namespace): a version is identified by the CONTENT of its
+   namespaces, not only by their names - a reload that changes one permission body must become visible *)
+let rec f_child (c : Ast.child) : string =
+  match c with
+  | Ast.CComputed r -> "C " ^ hx r
+  | Ast.CTuple (r, cr) -> "T " ^ hx r ^ " " ^ hx cr
+  | Ast.CInvert c' -> "I " ^ f_child c'
+  | Ast.CRewrite (op, cs) ->
+    Printf.sprintf "W %s %d %s" (match op with Ast.OpAnd -> "and" | Ast.OpOr -> "or") (List.length cs) (String.concat " " (List.map f_child cs))
+let canon (n : Ast.namespace) : string =
+  let rel (r : Ast.relation) =
+    Printf.sprintf " R %s %d%s %s" (hx r.Ast.rel_name) (List.length r.Ast.rel_types)
+      (String.concat "" (List.map (fun (t : Ast.rtype) -> Printf.sprintf " Y %s %s" (hx t.Ast.ty_ns) (hx t.Ast.ty_rel)) r.Ast.rel_types))
+      (match r.Ast.rel_rewrite with None -> "-" | Some w -> f_child (Ast.CRewrite (w.Ast.rw_op, w.Ast.rw_children))) in
+  Printf.sprintf "N %s %d%s" (hx n.Ast.ns_name) (List.length n.Ast.ns_rels) (String.concat "" (List.map rel n.Ast.ns_rels))
+let bytes_of_string (s : string) : Byte.byte list = List.init (String.length s) (fun i -> byte_of_int (Char.code s.[i]))
 let version_of_opl (content : Byte.byte list) : Watcher.version =
   let (nss, errs) = Parser.coq_Parse content in
-  if errs = [] then Some (List.map (fun (n : Ast.namespace) -> n.ns_name) nss) else None
+  if errs = [] then Some (List.map (fun (n : Ast.namespace) -> bytes_of_string (canon n)) nss) else None
 
 let run (input : string) (obs : string) : string * string =
   let t = { l = words input } in
